@@ -32,8 +32,8 @@ from fsim.world import stable_hash
 from machines.build import BUILD_STUBS
 
 NAMES = {'n0': ['x', 'y', 'z'], 'n1': ['y', 'extra'], 'N2': ['x', 'k'],
-         'N3': ['x', 'y'], 'n4': [], 'n5': ['x']}
-JSON_OK = ('n0', 'n1', 'N2', 'N3')   # stubs that have a pyref
+         'N3': ['x', 'y'], 'n4': [], 'n5': ['x'], 'n6': ['x', 'y', 'k']}
+JSON_OK = ('n0', 'n1', 'N2', 'N3', 'n6')   # stubs that have a pyref
 TAGS = ['T0', 'T1', 'T2', 'U0']
 BTYPES = {'Config': fdl.Config, 'Partial': fdl.Partial,
           'ArgFactory': fdl.ArgFactory}
